@@ -55,6 +55,12 @@ func (encryptor *QueryDataEncryptor) GetQueryEncryptionSettings() []*base.QueryD
 	return encryptor.querySelectSettings
 }
 
+// SetQueryEncryptionSettings puts settings collected by an earlier OnQuery call back in force: the rows that follow
+// belong to that statement and not to the one analysed last (COM_STMT_EXECUTE of a prepared statement)
+func (encryptor *QueryDataEncryptor) SetQueryEncryptionSettings(items []*base.QueryDataItem) {
+	encryptor.querySelectSettings = items
+}
+
 // encryptInsertQuery encrypt data in insert query in VALUES and ON DUPLICATE KEY UPDATE statements
 func (encryptor *QueryDataEncryptor) encryptInsertQuery(ctx context.Context, insert *sqlparser.Insert, bindPlaceholders map[int]config.ColumnEncryptionSetting) (bool, error) {
 	tableName := insert.Table.Name
